@@ -61,6 +61,28 @@ Theorem C15_failed_save_atomic : forall (tmp target : path) (chunks : list bytes
 Proof. intros tmp target chunks d0 c f N. exact (failed_save_atomic tmp target N chunks d0 f c). Qed.
 Print Assumptions C15_failed_save_atomic.
 
+(* The flush is a SHORT write (disk full, quota, RLIMIT_FSIZE: only k bytes are accepted): the
+   buffered writer raises, the file is closed, save() raises - and at every crash point of that
+   run the storage file is still exactly old or exactly new, for every k.  More generally:
+   whatever calls concerning only the temporary file follow any prefix of the protocol, the
+   storage file is untouched; the rename comes only after the complete content was flushed. *)
+Theorem C15_short_write_atomic : forall (tmp target : path) (chunks : list bytes) (d0 c : fs) (f k : nat),
+  tmp <> target ->
+  In c (crash_states (short_ops tmp f k (save_ops tmp target chunks)) (init d0)) ->
+  lookup target c = lookup target d0 \/ lookup target c = Some (concat chunks).
+Proof. intros tmp target chunks d0 c f k N. exact (short_write_atomic tmp target N chunks d0 f k c). Qed.
+Print Assumptions C15_short_write_atomic.
+
+Theorem C15_prefix_then_tmp_calls_atomic :
+  forall (tmp target : path) (chunks : list bytes) (d0 c : fs) (pre post extra : list op),
+  tmp <> target ->
+  save_ops tmp target chunks = pre ++ post ->
+  Forall (tmp_only tmp) extra ->
+  In c (crash_states (pre ++ extra) (init d0)) ->
+  lookup target c = lookup target d0 \/ lookup target c = Some (concat chunks).
+Proof. intros tmp target chunks d0 c pre post extra N. exact (prefix_then_tmp_calls_atomic tmp target N chunks d0 pre post extra c). Qed.
+Print Assumptions C15_prefix_then_tmp_calls_atomic.
+
 (* Any number of saves in a row, crash anywhere: the storage file holds the initial
    content or the complete content of one of the saves. *)
 Theorem C15_repeated_saves : forall (tmp target : path) (css : list (list bytes)) (d0 c : fs),
@@ -164,3 +186,16 @@ Example C15_ex_fault_ops :
   /\ fault_ops 1 [] 5 (save_ops 1 0 [[110]%N]) = [OpenTrunc 1; Write 1 [110]%N; Flush 1; Fsync 1; Close 1]
   /\ fault_ops 1 [] 0 (save_ops 1 0 [[110]%N]) = [].
 Proof. vm_compute. repeat split. Qed.
+
+(* a short write whose count is ignored (unbuffered file, return value of write() dropped): the
+   save runs on to the rename and moves 2 of 5 bytes in place *)
+Example C15_ex_short_write_ignored :
+  exec [OpenTrunc 1; Write 1 [110; 101; 119; 33; 10]%N; FlushShort 1 2; Fsync 1; Close 1; Rename 1 0]
+       (init [(0, [111; 108; 100]%N)])
+  = Some {| disk := [(0, [110; 101]%N)]; bufs := []; tails := [] |}.
+Proof. vm_compute. reflexivity. Qed.
+
+Example C15_ex_short_ops :
+  short_ops 1 2 3 (save_ops 1 0 [[110; 101; 119; 33; 10]%N])
+  = [OpenTrunc 1; Write 1 [110; 101; 119; 33; 10]%N; FlushShort 1 3; Close 1].
+Proof. vm_compute. reflexivity. Qed.
